@@ -200,6 +200,7 @@ func (s *Service) GetListener() (net.Listener, error) {
 	return l, nil
 }
 
+// setListener is called with s.mutex held.
 func (s *Service) setListener(ctx context.Context) error {
 	l := activationListener()
 	if l == nil {
@@ -218,9 +219,7 @@ func (s *Service) setListener(ctx context.Context) error {
 		}
 	}
 
-	s.mutex.Lock()
 	s.listener = l
-	s.mutex.Unlock()
 
 	return nil
 }
@@ -241,11 +240,16 @@ func (s *Service) refreshTimeout(timeout time.Duration) error {
 // Bind binds the service to an address.
 func (s *Service) Bind(ctx context.Context, address string) error {
 	s.mutex.Lock()
+	defer s.mutex.Unlock()
+	return s.bind(ctx, address)
+}
+
+// bind is called with s.mutex held, so that the running check and the
+// replacement of the listener cannot be separated by the start of a serving call.
+func (s *Service) bind(ctx context.Context, address string) error {
 	if s.running {
-		s.mutex.Unlock()
 		return fmt.Errorf("Init(): already running")
 	}
-	s.mutex.Unlock()
 
 	err := s.parseAddress(address)
 	if err != nil {
@@ -261,18 +265,18 @@ func (s *Service) Bind(ctx context.Context, address string) error {
 
 // Listen starts a Service.
 func (s *Service) Listen(ctx context.Context, address string, timeout time.Duration) error {
-	err := s.Bind(ctx, address)
+	s.mutex.Lock()
+	err := s.bind(ctx, address)
 	if err != nil {
+		s.mutex.Unlock()
 		return err
 	}
-
-	var wg sync.WaitGroup
-	defer func() { s.teardown(); wg.Wait() }()
-
-	s.mutex.Lock()
 	s.running = true
 	l := s.listener
 	s.mutex.Unlock()
+
+	var wg sync.WaitGroup
+	defer func() { s.teardown(); wg.Wait() }()
 
 	for s.isRunning() {
 		if timeout != 0 {
@@ -313,13 +317,10 @@ func (s *Service) DoListen(ctx context.Context, timeout time.Duration) error {
 
 	s.mutex.Lock()
 	l := s.listener
-	s.mutex.Unlock()
-
 	if l == nil {
+		s.mutex.Unlock()
 		return fmt.Errorf("No listener set")
 	}
-
-	s.mutex.Lock()
 	s.running = true
 	s.mutex.Unlock()
 
